@@ -2724,46 +2724,31 @@ template< size_t L> inline
    FixedString< L>& FixedString< L>::replaceImpl( size_t pos1, size_t count1,
       const char* str, size_t pos2, size_t count2) noexcept
 {
-   if (pos1 >= mLength)
+   if (pos1 > mLength)
       return *this;
+   // never replace more than the rest of the string
+   if (count1 > mLength - pos1)
+      count1 = mLength - pos1;
+   // never copy more than fits behind pos1
    size_t  copy_len = count2;
-   if (pos1 + count1 >= mLength)
-   {
-      // replace from pos until the end of the string
-      if (pos1 + copy_len > L)
-         copy_len = L - pos1;
-      std::memcpy( &mString[ pos1], &str[ pos2], copy_len);
-      mLength = pos1 + copy_len;
-      mString[ mLength] = '\0';
-   } else if (count1 == copy_len)
-   {
-      std::memcpy( &mString[ pos1], &str[ pos2], copy_len);
-   } else if (count1 < copy_len)
+   if (copy_len > L - pos1)
+      copy_len = L - pos1;
+   if (count1 != copy_len)
    {
       // goodbyexfarewell
       // replace x by ' and ':  replace( 7, 1, " and ");
-      // str.length() == 5
-      // make space:  goodbyex....farewell
-      // copy:        goodbye and farewell
-      std::memmove( &mString[ pos1 + copy_len - count1 + 1],
-         &mString[ pos1 + count1],
-         mLength - pos1 - count1);
-      std::memcpy( &mString[ pos1], &str[ pos2], copy_len);
-      mLength = mLength - count1 + copy_len;
-      mString[ mLength] = '\0';
-   } else // count1 > copy_len
-   {
-      // goodbyexxxxxxxxfarewell
-      // replace xxxxxxxx by ' and ':  replace( 7, 8, " and ");
-      // str.length() == 5
-      // adjust end of string:  goodbyexxxxxfarewell
-      // copy:                  goodbye and farewell
+      // move the rest:  goodbyex....farewell
+      // the part of the rest that does not fit anymore is dropped
+      size_t  rest_len = mLength - pos1 - count1;
+      if (rest_len > L - pos1 - copy_len)
+         rest_len = L - pos1 - copy_len;
       std::memmove( &mString[ pos1 + copy_len], &mString[ pos1 + count1],
-         mLength - pos1 - count1);
-      std::memcpy( &mString[ pos1], &str[ pos2], copy_len);
-      mLength -= (count1 - copy_len);
+         rest_len);
+      mLength = pos1 + copy_len + rest_len;
       mString[ mLength] = '\0';
    } // end if
+   // copy:  goodbye and farewell
+   std::memcpy( &mString[ pos1], &str[ pos2], copy_len);
    return *this;
 } // FixedString< L>::replaceImpl
 
